@@ -323,6 +323,46 @@ def minimise(pool, prop: str, unit: dict, rec: dict, cls: str,
     return best_u, best_r
 
 
+def minimise_c03(pool, wit, budget: int = 50):
+    """Shrink the definition while the two witnessing schedules still
+    disagree.  wit = [(unit, record), (unit, record)]."""
+    (u1, r1), (u2, r2) = wit[0], wit[1]
+    best = [explicit_unit(u1, r1), explicit_unit(u2, r2)]
+    best_r = [r1, r2]
+    strict_f = valid_f(best[0]["ast"])
+    spent = 0
+
+    def split(a, b):
+        nonlocal spent
+        spent += 1
+        rs = pool.map([a, b])
+        o = [outcome(r) for r in rs]
+        return (None not in o
+                and json.dumps(o[0]) != json.dumps(o[1])), rs
+
+    progress = True
+    while progress and spent < budget:
+        progress = False
+        for cand in shrink_candidates(best[0]["ast"]):
+            if spent >= budget:
+                break
+            if strict_f and not valid_f(cand):
+                continue
+            pair = []
+            for b in best:
+                x = copy.deepcopy(b)
+                x["ast"] = cand
+                x["present"]["order"] = None
+                pair.append(x)
+            ok, rs = split(*pair)
+            if ok:
+                best = [explicit_unit(x, r) for x, r in zip(pair, rs)]
+                best_r = rs
+                progress = True
+                break
+    return best, best_r
+
+
 # ---------------------------------------------------------------------------
 # main
 # ---------------------------------------------------------------------------
@@ -481,12 +521,23 @@ def evaluate(run: CheckRun, pool, prop, units, results) -> dict:
                                                key=lambda kv: kv[0])):
         key = {"workload": w, "violation_class": cls}
         if prop == "C03":
+            units2 = [explicit_unit(u, r) for u, r in wit[:2]]
+            recs2 = [r for u, r in wit[:2]]
+            if n < 4:
+                mu, mr = minimise_c03(pool, wit[:2])
+                chk = pool.map(mu)
+                if [log_digest(r) for r in chk] == [log_digest(r)
+                                                    for r in mr]:
+                    units2, recs2 = mu, mr
             pay = {
                 "kind": "C03-history",
                 "violation_class": cls,
-                "units": [explicit_unit(u, r) for u, r in wit[:2]],
-                "outcomes": [outcome(r) for u, r in wit[:2]],
-                "digests": [log_digest(r) for u, r in wit[:2]],
+                "units": units2,
+                "definition": puml_sem.show(units2[0]["ast"]),
+                "emitted": [(r.get("text") or "").split("\n")
+                            for r in recs2],
+                "outcomes": [outcome(r) for r in recs2],
+                "digests": [log_digest(r) for r in recs2],
             }
             run.violation(key, f"{w}: presentations/schedules disagree: "
                           f"{pay['outcomes']}", pay)
